@@ -30,6 +30,19 @@ class CompiledRe:
         return f"re.compile({self.pattern!r}, {self.flags})"
 
 
+class FoldRecord(tuple):
+    """an instance of a NamedTuple class of the repository, folded"""
+    _names: tuple = ()
+
+    def __new__(cls, names, values):
+        o = super().__new__(cls, values)
+        o._names = tuple(names)
+        return o
+
+    def field(self, name):
+        return self[self._names.index(name)]
+
+
 class Opaque:
     """A symbolic atom standing for a run-time value inside an otherwise constant string/bytes
     template (e.g. the multipart boundary)."""
@@ -90,6 +103,13 @@ class Folder:
                 return _EXT_CONSTS[r[1]]
             raise NotConst(f"name {expr.id}")
         if isinstance(expr, ast.Attribute):
+            if isinstance(expr.value, ast.Name) and expr.value.id in env:
+                base_ = env[expr.value.id]
+                if isinstance(base_, FoldRecord) and expr.attr in base_._names:
+                    return base_.field(expr.attr)
+                if f"{expr.value.id}.{expr.attr}" in env:
+                    return env[f"{expr.value.id}.{expr.attr}"]
+                raise NotConst(f"attribute {ast.unparse(expr)}")
             r = self.p.resolve_dotted(mod, expr)
             if isinstance(r, tuple) and r[0] == "const":
                 nm_ = next((k for k, v in r[1].constants.items() if v is r[2]), None)
@@ -198,6 +218,10 @@ class Folder:
                 return l in r_
             if isinstance(op, ast.NotIn):
                 return l not in r_
+            if isinstance(op, (ast.Lt, ast.LtE, ast.Gt, ast.GtE)) and isinstance(l, (int, str, bytes)) and type(l) is type(r_):
+                return {ast.Lt: l < r_, ast.LtE: l <= r_, ast.Gt: l > r_, ast.GtE: l >= r_}[type(op)]
+            if isinstance(op, (ast.Is, ast.IsNot)) and (l is None or r_ is None or isinstance(l, bool) or isinstance(r_, bool)):
+                return (l is r_) if isinstance(op, ast.Is) else (l is not r_)
             raise NotConst("compare")
         if isinstance(expr, ast.Subscript):
             v = f(expr.value)
@@ -236,6 +260,21 @@ class Folder:
             r = self.p.lookup_name(mod, fn.id) if fn.id not in (env or {}) else None
             if isinstance(r, FuncInfo):
                 return self._eval_function(r, [f(a) for a in call.args], {kw.arg: f(kw.value) for kw in call.keywords if kw.arg}, depth + 1)
+            if isinstance(r, ClassInfo) and any(ast.unparse(b).split(".")[-1] == "NamedTuple" for b in r.base_exprs):
+                names = list(r.ann.keys())
+                vals = {}
+                for n_, a in zip(names, call.args):
+                    vals[n_] = f(a)
+                for kw in call.keywords:
+                    if kw.arg is None or kw.arg not in names or kw.arg in vals:
+                        raise NotConst("NamedTuple arguments")
+                    vals[kw.arg] = f(kw.value)
+                for n_ in names:
+                    if n_ not in vals:
+                        if n_ not in r.attrs:
+                            raise NotConst("NamedTuple field without value")
+                        vals[n_] = self.fold(r.module, r.attrs[n_], None, depth + 1)
+                return FoldRecord(names, [vals[n_] for n_ in names])
             name = fn.id if r is None else (r[1] if isinstance(r, tuple) and r[0] == "ext" else None)
         elif isinstance(fn, ast.Attribute):
             r = self.p.resolve_dotted(mod, fn)
@@ -423,6 +462,18 @@ class Folder:
                 if r is not None:
                     return r
                 continue
+            if isinstance(st, ast.While) and not st.orelse:
+                while ev(st.test):
+                    steps[0] += 1
+                    if steps[0] > self._STEP_LIMIT:
+                        raise NotConst("evaluation budget")
+                    r = self._exec_block(mod, st.body, env, depth, steps)
+                    if r is not None:
+                        if r[0] == "break":
+                            break
+                        if r[0] == "return":
+                            return r
+                continue
             if isinstance(st, ast.For) and not st.orelse:
                 it = ev(st.iter)
                 if not isinstance(it, (list, tuple, range, str, bytes, dict, set, frozenset)):
@@ -439,7 +490,7 @@ class Folder:
                 continue
             if isinstance(st, ast.Expr) and isinstance(st.value, ast.Call) and isinstance(st.value.func, ast.Attribute) and isinstance(st.value.func.value, ast.Name) \
                     and st.value.func.value.id in env and isinstance(env[st.value.func.value.id], (dict, list, set)) \
-                    and st.value.func.attr in ("update", "append", "extend", "add", "setdefault", "pop", "discard", "remove", "insert") and not st.value.keywords:
+                    and st.value.func.attr in ("update", "append", "extend", "add", "setdefault", "pop", "discard", "remove", "insert", "reverse", "sort", "clear") and not st.value.keywords:
                 try:
                     getattr(env[st.value.func.value.id], st.value.func.attr)(*[ev(a) for a in st.value.args])
                 except NotConst:
@@ -459,12 +510,36 @@ class Folder:
             raise NotConst(f"statement {type(st).__name__} in an evaluated helper")
         return None
 
+    def exec_known(self, mod: Module, body, env: Dict[str, Any]) -> Dict[str, Any]:
+        """Executes a statement list (e.g. a constructor body) as far as it is about constants: each top-level statement is tried
+        with the executor; a statement that is not foldable is skipped and every name / self.attribute it binds is removed
+        from `env` (it no longer has a known value). Returns env with `self.<attr>` keys for attribute stores."""
+        for st in body:
+            snapshot = dict(env)
+            try:
+                r = self._exec_block(mod, [st], env, 0, [0])
+                if r is not None:
+                    break
+            except NotConst:
+                env.clear()
+                env.update(snapshot)
+                for n in ast.walk(st):
+                    if isinstance(n, ast.Name) and isinstance(n.ctx, (ast.Store, ast.Del)):
+                        env.pop(n.id, None)
+                    elif isinstance(n, ast.Attribute) and isinstance(n.ctx, (ast.Store, ast.Del)) and isinstance(n.value, ast.Name):
+                        env.pop(f"{n.value.id}.{n.attr}", None)
+                    elif isinstance(n, ast.Call) and isinstance(n.func, ast.Attribute) and isinstance(n.func.value, ast.Name):
+                        env.pop(n.func.value.id, None)  # a container changed by a call we could not evaluate
+        return env
+
     def _bind(self, mod: Module, t: ast.expr, v: Any, env: Dict[str, Any], depth: int) -> None:
         if isinstance(t, ast.Name):
             env[t.id] = v
         elif isinstance(t, (ast.Tuple, ast.List)) and isinstance(v, (tuple, list)) and len(v) == len(t.elts) and not any(isinstance(e, ast.Starred) for e in t.elts):
             for e, x in zip(t.elts, v):
                 self._bind(mod, e, x, env, depth)
+        elif isinstance(t, ast.Attribute) and isinstance(t.value, ast.Name) and t.value.id in ("self",):
+            env[f"{t.value.id}.{t.attr}"] = v
         elif isinstance(t, ast.Subscript) and isinstance(t.value, ast.Name) and t.value.id in env and isinstance(env[t.value.id], (dict, list)):
             try:
                 env[t.value.id][self.fold(mod, t.slice, env, depth + 1)] = v
